@@ -1,5 +1,5 @@
 (* Proofs about Model/DirStats.v (C03) and the 2D->1D bulk clause of C02. *)
-From Coq Require Import Reals Lra Lia List Arith.
+From Coq Require Import Reals Lra Lia List Arith Sorting.Sorted.
 From Interval Require Import Tactic.
 From OSU.Lib Require Import Cyclic Fmod Atan2.
 From OSU.Model Require Import Directional DirStats.
@@ -727,3 +727,222 @@ End Mirror2d.
 Lemma bulk_batch_independent : forall M (b : list (spec2d M)) fmin fmax i d,
   nth i (map (fun s => bulk_2d s fmin fmax) b) (bulk_2d d fmin fmax) = bulk_2d (nth i b d) fmin fmax.
 Proof. intros. apply (map_nth (fun s => bulk_2d s fmin fmax)). Qed.
+
+(* ================================================================== *)
+(* band averages of valid moments are valid moments                     *)
+(* ================================================================== *)
+Lemma disc_add : forall A B P a b p, 0 <= P -> 0 <= p ->
+  A * A + B * B <= P * P -> a * a + b * b <= p * p ->
+  (A + a) * (A + a) + (B + b) * (B + b) <= (P + p) * (P + p).
+Proof.
+  intros A B P a b p HP Hp H1 H2.
+  assert (K : A * a + B * b <= P * p).
+  { apply le_of_sqr_le; [apply Rmult_le_pos; assumption|].
+    assert (Q : 0 <= (A * b - B * a) * (A * b - B * a)) by apply Rle_0_sqr.
+    assert (N1 : 0 <= A * A + B * B).
+    { assert (0 <= A * A) by apply Rle_0_sqr. assert (0 <= B * B) by apply Rle_0_sqr. lra. }
+    assert (N2 : 0 <= a * a + b * b).
+    { assert (0 <= a * a) by apply Rle_0_sqr. assert (0 <= b * b) by apply Rle_0_sqr. lra. }
+    assert (M : (A * A + B * B) * (a * a + b * b) <= (P * P) * (p * p)) by (apply Rmult_le_compat; assumption).
+    replace ((A * a + B * b) * (A * a + B * b))
+      with ((A * A + B * B) * (a * a + b * b) - (A * b - B * a) * (A * b - B * a)) by ring.
+    replace (P * p * (P * p)) with (P * P * (p * p)) by ring. lra. }
+  replace ((A + a) * (A + a) + (B + b) * (B + b)) with ((A * A + B * B) + (a * a + b * b) + 2 * (A * a + B * b)) by ring.
+  replace ((P + p) * (P + p)) with (P * P + p * p + 2 * (P * p)) by ring. lra.
+Qed.
+
+Lemma disc_scale : forall w a b, 0 <= w -> a * a + b * b <= 1 ->
+  (w * a) * (w * a) + (w * b) * (w * b) <= w * w.
+Proof.
+  intros w a b Hw H.
+  replace ((w * a) * (w * a) + (w * b) * (w * b)) with ((w * w) * (a * a + b * b)) by ring.
+  assert (0 <= w * w) by apply Rle_0_sqr.
+  replace (w * w) with (w * w * 1) at 2 by ring. apply Rmult_le_compat_l; assumption.
+Qed.
+
+Lemma trapz_disc : forall xs ev av bv,
+  StronglySorted Rle xs ->
+  length ev = length xs -> length av = length xs -> length bv = length xs ->
+  Forall (fun v => 0 <= v) ev ->
+  Forall2 (fun a b => a * a + b * b <= 1) av bv ->
+  let Na := trapz xs (map2 Rmult av ev) in
+  let Nb := trapz xs (map2 Rmult bv ev) in
+  let P := trapz xs ev in
+  0 <= P /\ Na * Na + Nb * Nb <= P * P.
+Proof.
+  induction xs as [|x0 xt IH]; intros ev av bv HS Le La Lb He Hab; cbn zeta.
+  - simpl. lra.
+  - destruct xt as [|x1 xt'].
+    + simpl. lra.
+    + destruct ev as [|e0 [|e1 et]]; try discriminate.
+      destruct av as [|a0 [|a1 at_]]; try discriminate.
+      destruct bv as [|b0 [|b1 bt]]; try discriminate.
+      inversion HS as [|? ? HS' Hx0]; subst.
+      inversion He as [|? ? He0 He']; subst.
+      inversion Hab as [|? ? ? ? Hab0 Hab']; subst.
+      destruct (IH (e1 :: et) (a1 :: at_) (b1 :: bt)) as [HP HI]; try assumption.
+      { simpl in *; lia. } { simpl in *; lia. } { simpl in *; lia. }
+      cbn zeta in HP, HI.
+      change (map2 Rmult (a0 :: a1 :: at_) (e0 :: e1 :: et)) with (a0 * e0 :: map2 Rmult (a1 :: at_) (e1 :: et)).
+      change (map2 Rmult (b0 :: b1 :: bt) (e0 :: e1 :: et)) with (b0 * e0 :: map2 Rmult (b1 :: bt) (e1 :: et)).
+      change (map2 Rmult (a1 :: at_) (e1 :: et)) with (a1 * e1 :: map2 Rmult at_ et) in *.
+      change (map2 Rmult (b1 :: bt) (e1 :: et)) with (b1 * e1 :: map2 Rmult bt et) in *.
+      change (trapz (x0 :: x1 :: xt') (a0 * e0 :: a1 * e1 :: map2 Rmult at_ et))
+        with ((x1 - x0) * (a0 * e0 + a1 * e1) / 2 + trapz (x1 :: xt') (a1 * e1 :: map2 Rmult at_ et)).
+      change (trapz (x0 :: x1 :: xt') (b0 * e0 :: b1 * e1 :: map2 Rmult bt et))
+        with ((x1 - x0) * (b0 * e0 + b1 * e1) / 2 + trapz (x1 :: xt') (b1 * e1 :: map2 Rmult bt et)).
+      change (trapz (x0 :: x1 :: xt') (e0 :: e1 :: et))
+        with ((x1 - x0) * (e0 + e1) / 2 + trapz (x1 :: xt') (e1 :: et)).
+      set (Ta := trapz (x1 :: xt') (a1 * e1 :: map2 Rmult at_ et)) in *.
+      set (Tb := trapz (x1 :: xt') (b1 * e1 :: map2 Rmult bt et)) in *.
+      set (T := trapz (x1 :: xt') (e1 :: et)) in *.
+      assert (Hh : 0 <= x1 - x0).
+      { inversion Hx0; subst. lra. }
+      inversion He' as [|? ? He1 _]; subst.
+      inversion Hab' as [|? ? ? ? Hab1 _]; subst.
+      set (w0 := (x1 - x0) * e0 / 2). set (w1 := (x1 - x0) * e1 / 2).
+      assert (W0 : 0 <= w0) by (unfold w0; assert (0 <= (x1 - x0) * e0) by (apply Rmult_le_pos; assumption); lra).
+      assert (W1 : 0 <= w1) by (unfold w1; assert (0 <= (x1 - x0) * e1) by (apply Rmult_le_pos; assumption); lra).
+      assert (S0 := disc_scale w0 a0 b0 W0 Hab0).
+      assert (S1 := disc_scale w1 a1 b1 W1 Hab1).
+      assert (S01 := disc_add (w0 * a0) (w0 * b0) w0 (w1 * a1) (w1 * b1) w1 W0 W1 S0 S1).
+      assert (W01 : 0 <= w0 + w1) by lra.
+      assert (F := disc_add (w0 * a0 + w1 * a1) (w0 * b0 + w1 * b1) (w0 + w1) Ta Tb T W01 HP S01 HI).
+      replace ((x1 - x0) * (a0 * e0 + a1 * e1) / 2) with (w0 * a0 + w1 * a1) by (unfold w0, w1; field).
+      replace ((x1 - x0) * (b0 * e0 + b1 * e1) / 2) with (w0 * b0 + w1 * b1) by (unfold w0, w1; field).
+      replace ((x1 - x0) * (e0 + e1) / 2) with (w0 + w1) by (unfold w0, w1; field).
+      split; [lra | exact F].
+Qed.
+
+Lemma Forall_select : forall {A} (P : A -> Prop) m l, Forall P l -> Forall P (select m l).
+Proof.
+  intros A P m l H. revert m. induction H; intros m; [destruct m; constructor|].
+  destruct m as [|[|] m]; simpl; [constructor | constructor; [assumption | apply IHForall] | apply IHForall].
+Qed.
+
+Lemma Forall2_select : forall {A B} (P : A -> B -> Prop) m l l', Forall2 P l l' -> Forall2 P (select m l) (select m l').
+Proof.
+  intros A B P m l l' H. revert m. induction H; intros m; [destruct m; constructor|].
+  destruct m as [|[|] m]; simpl; [constructor | constructor; [assumption | apply IHForall2] | apply IHForall2].
+Qed.
+
+Lemma SSorted_select : forall m l, StronglySorted Rle l -> StronglySorted Rle (select m l).
+Proof.
+  intros m l H. revert m. induction H; intros m; [destruct m; constructor|].
+  destruct m as [|[|] m]; simpl; [constructor | | apply IHStronglySorted].
+  constructor; [apply IHStronglySorted | apply Forall_select; assumption].
+Qed.
+
+Lemma select_map : forall {A B} (g : A -> B) m l, select m (map g l) = map g (select m l).
+Proof.
+  induction m as [|b m IH]; intros l; [reflexivity|]. destruct l; [reflexivity|].
+  simpl. destruct b; simpl; [f_equal|]; apply IH.
+Qed.
+
+Lemma map2_wprod : forall p e, map2 wprod p e = map2 Rmult (map fill0 p) (map fill0 e).
+Proof. induction p; intros e; destruct e; simpl; try reflexivity. f_equal; apply IHp. Qed.
+
+Lemma map2_mterm0 : forall e f, length e = length f -> map2 (mterm 0) e f = map fill0 e.
+Proof.
+  induction e as [|v e IH]; intros f L; destruct f; try discriminate; [reflexivity|].
+  simpl. f_equal; [destruct v; simpl; ring | apply IH; simpl in L; lia].
+Qed.
+
+
+Lemma mean_moments_in_disc : forall fmin fmax f e a b A B,
+  StronglySorted Rle f ->
+  length e = length f -> length a = length f -> length b = length f ->
+  Forall nonneg_or_nan e -> Forall2 in_disc a b ->
+  weighted fmin fmax f e a = Some A -> weighted fmin fmax f e b = Some B ->
+  A * A + B * B <= 1.
+Proof.
+  intros fmin fmax f e a b A B HS Le La Lb He Hab HA HB.
+  unfold weighted, wnum in HA, HB. unfold moment in HA, HB.
+  set (m := band_mask fmin fmax f) in *.
+  destruct (has_nan (select m e)); [discriminate|].
+  unfold odiv in HA, HB.
+  set (sf := select m f) in *. set (se := select m e) in *.
+  set (sa := select m a) in *. set (sb := select m b) in *.
+  assert (L1 : length se = length sf) by (apply select_length_eq; exact Le).
+  assert (L2 : length sa = length sf) by (apply select_length_eq; exact La).
+  assert (L3 : length sb = length sf) by (apply select_length_eq; exact Lb).
+  rewrite (map2_mterm0 se sf L1) in HA, HB.
+  rewrite !map2_wprod in HA, HB.
+  destruct (Req_EM_T (trapz sf (map fill0 se)) 0) as [Z|NZ]; [discriminate|].
+  inversion HA; inversion HB; subst A B. clear HA HB.
+  destruct (trapz_disc sf (map fill0 se) (map fill0 sa) (map fill0 sb)) as [HP HI].
+  - apply SSorted_select; exact HS.
+  - rewrite map_length; exact L1.
+  - rewrite map_length; exact L2.
+  - rewrite map_length; exact L3.
+  - apply Forall_forall. intros v Hv. apply in_map_iff in Hv. destruct Hv as [x [Hx Hin]]. subst v.
+    assert (Hs : Forall nonneg_or_nan se) by (apply Forall_select; exact He).
+    rewrite Forall_forall in Hs. specialize (Hs x Hin). destruct x; simpl in *; [exact Hs | lra].
+  - assert (Hs : Forall2 in_disc sa sb) by (apply Forall2_select; exact Hab).
+    clear - Hs. induction Hs; simpl; constructor; assumption.
+  - cbn zeta in HP, HI.
+    set (Na := trapz sf (map2 Rmult (map fill0 sa) (map fill0 se))) in *.
+    set (Nb := trapz sf (map2 Rmult (map fill0 sb) (map fill0 se))) in *.
+    set (P := trapz sf (map fill0 se)) in *.
+    assert (PP : 0 < P * P).
+    { assert (0 < P) by lra. apply Rmult_lt_0_compat; assumption. }
+    replace (Na / P * (Na / P) + Nb / P * (Nb / P)) with ((Na * Na + Nb * Nb) / (P * P)) by (field; exact NZ).
+    apply (Rmult_le_reg_r (P * P)); [exact PP|].
+    replace ((Na * Na + Nb * Nb) / (P * P) * (P * P)) with (Na * Na + Nb * Nb) by (field; exact NZ). lra.
+Qed.
+
+(* hence: the band-mean spread exists and lies in [0, sqrt2*180/pi], the band-mean direction in (-180,180] *)
+Lemma mean_spread_range : forall fmin fmax f e a b A B,
+  StronglySorted Rle f ->
+  length e = length f -> length a = length f -> length b = length f ->
+  Forall nonneg_or_nan e -> Forall2 in_disc a b ->
+  weighted fmin fmax f e a = Some A -> weighted fmin fmax f e b = Some B ->
+  exists v, mean_spread fmin fmax f e a b = Some v /\ 0 <= v <= sqrt 2 * 180 / PI.
+Proof.
+  intros fmin fmax f e a b A B HS Le La Lb He Hab HA HB.
+  assert (D := mean_moments_in_disc fmin fmax f e a b A B HS Le La Lb He Hab HA HB).
+  unfold mean_spread. rewrite HA, HB. simpl. apply spread_range. exact D.
+Qed.
+
+(* 2D spectra: non-negative density on non-negative steps gives valid moments at every frequency *)
+Lemma moments_2d_in_disc : forall M (s : spec2d M),
+  Forall (fun row => length row = length (th2 s)) (E2 s) ->
+  Forall (fun row => forall v, In (Some v) row -> 0 <= v) (E2 s) ->
+  (forall x, In x (dstep (th2 s)) -> 0 <= x) ->
+  Forall nonneg_or_nan (map Some (e_2d s)) /\ Forall2 in_disc (a1_2d s) (b1_2d s) /\ Forall2 in_disc (a2_2d s) (b2_2d s).
+Proof.
+  intros M s HL HE Hs. unfold e_2d, a1_2d, b1_2d, a2_2d, b2_2d.
+  induction (E2 s) as [|row E IH]; [simpl; repeat split; constructor|].
+  inversion HL as [|? ? L1 HL']; subst. inversion HE as [|? ? E1 HE']; subst.
+  destruct (IH HL' HE') as [I1 [I2 I3]].
+  assert (N := e_nonneg row (th2 s) E1 Hs).
+  assert (D : in_disc (a1_row row (th2 s)) (b1_row row (th2 s)) /\ in_disc (a2_row row (th2 s)) (b2_row row (th2 s))).
+  { destruct (Req_dec (e_row row (th2 s)) 0) as [Z|NZ].
+    - destruct (moments_nan_when_no_energy row (th2 s) Z) as [A1 [B1 [A2 B2]]].
+      rewrite A1, B1, A2, B2. unfold in_disc. simpl. lra.
+    - assert (P : 0 < e_row row (th2 s)) by lra.
+      destruct (moments_bounded row (th2 s) L1 E1 Hs P) as [a [b [a' [b' [A1 [B1 [A2 [B2 [_ [_ [_ [_ [D1 D2]]]]]]]]]]]]].
+      rewrite A1, B1, A2, B2. unfold in_disc. simpl. split; assumption. }
+  simpl. split; [constructor; [exact N | exact I1]|].
+  split; constructor; try assumption; apply D.
+Qed.
+
+Lemma ranges_2d : forall M (s : spec2d M) fmin fmax A B,
+  StronglySorted Rle (f2 s) -> length (E2 s) = length (f2 s) ->
+  Forall (fun row => length row = length (th2 s)) (E2 s) ->
+  Forall (fun row => forall v, In (Some v) row -> 0 <= v) (E2 s) ->
+  (forall x, In x (dstep (th2 s)) -> 0 <= x) ->
+  b_mean_a1 (bulk_2d s fmin fmax) = Some A -> b_mean_b1 (bulk_2d s fmin fmax) = Some B ->
+  A * A + B * B <= 1 /\
+  exists v, b_mean_spread (bulk_2d s fmin fmax) = Some v /\ 0 <= v <= sqrt 2 * 180 / PI.
+Proof.
+  intros M s fmin fmax A B HS L HL HE Hs HA HB.
+  destruct (moments_2d_in_disc M s HL HE Hs) as [N [D1 _]].
+  unfold bulk_2d, bulk_of in *. cbn [b_mean_a1 b_mean_b1 b_mean_spread] in *.
+  assert (L0 : length (map Some (e_2d s)) = length (f2 s)) by (unfold e_2d; rewrite !map_length; exact L).
+  assert (L1 : length (a1_2d s) = length (f2 s)) by (unfold a1_2d; rewrite map_length; exact L).
+  assert (L2 : length (b1_2d s) = length (f2 s)) by (unfold b1_2d; rewrite map_length; exact L).
+  split.
+  - apply (mean_moments_in_disc fmin fmax (f2 s) (map Some (e_2d s)) (a1_2d s) (b1_2d s)); assumption.
+  - apply (mean_spread_range fmin fmax (f2 s) (map Some (e_2d s)) (a1_2d s) (b1_2d s) A B); assumption.
+Qed.
